@@ -1,7 +1,7 @@
 """C01 - RF write/read round-trip fidelity (DrfChannel: RoundTrip / CleanCloseComplete / InWindow)."""
 from . import chan_common as cc
 
-PREFIXES = ("C01-", "final-file-set", "C09-reader-raised", "C02-tmp-files")
+PREFIXES = ("C01-", "final-file-set", "C09-reader-raised", "C02-tmp-files", "C04-file-outside")
 
 
 def run(ctx):
@@ -11,4 +11,4 @@ def run(ctx):
                 "1-5 subchannels, rates n/d incl. x/3, x/7, x/1001 and primes near 2^32, cadences down to 1-2 samples per file, "
                 "gapped / continuous / compressed, start 1980-2100) x rf_write / rf_write_blocks histories x reads on all "
                 "file, block and gap edges; values are a keyed PRF of the absolute index over the full element range",
-           observe_pairs=ctx.pick(30, 45))
+           observe_pairs=ctx.pick(30, 45), capi_every=3)
